@@ -1,6 +1,7 @@
 SPECIFICATION FairSpec
 CONSTANTS MaxVersion = 3
  MaxFaults = 2
- SilentRace = FALSE
+  ClaimFirst = TRUE
+ SilentRace = TRUE
 PROPERTY Heals
 CHECK_DEADLOCK FALSE
